@@ -911,3 +911,79 @@ func ruleC13SweepTime(cx *Ctx) {
 		cx.R.Undecided(rule, "cache", "DeleteExpired call", "-", "no call of Variable.DeleteExpired in the cache")
 	}
 }
+
+func init() {
+	alsoUnder(ruleC16Recycle, "C16", "C05", "C06")
+}
+
+// ---- C16.recycle ----
+// A replay task goes back to the pool exactly once, by the replay itself: runTask recycles the task it was given
+// (C05.runTask) and nobody else does. A second Put hands the same object to two writers at once - one of the two
+// events is overwritten before it is replayed.
+func ruleC16Recycle(cx *Ctx) {
+	const rule = "C16.recycle"
+	cx.R.Rule(rule, 1, "putTask (the only function that returns a *task to the pool) is called only from runTask and the helpers only it calls: a task is recycled once, by its replay")
+	put := cx.need(rule, "", "cache", "putTask")
+	rt := cx.need(rule, "", "cache", "runTask")
+	if put == nil || rt == nil {
+		return
+	}
+	// functions reachable only from runTask
+	only := map[*ssa.Function]bool{origin(rt): true}
+	withClosures(rt, func(f *ssa.Function) { only[f] = true })
+	for changed := true; changed; {
+		changed = false
+		for _, fn := range cx.P.FuncsOfPkg("") {
+			if only[fn] || fn.Parent() != nil || origin(fn) == origin(put) {
+				continue
+			}
+			callers, all := 0, true
+			for _, g := range cx.P.FuncsOfPkg("") {
+				allInstrs(g, func(in ssa.Instruction) {
+					if c := calleeOf(in); c != nil && origin(c) == origin(fn) {
+						callers++
+						if !only[g] && !only[outermost(g)] {
+							all = false
+						}
+					}
+				})
+			}
+			if callers > 0 && all {
+				only[fn] = true
+				withClosures(fn, func(f *ssa.Function) { only[f] = true })
+				changed = true
+			}
+		}
+	}
+	n := 0
+	for _, fn := range cx.P.FuncsOfPkg("") {
+		allInstrs(fn, func(in ssa.Instruction) {
+			if !isCallTo(in, put) {
+				return
+			}
+			n++
+			cx.R.Check(only[fn] || only[outermost(fn)], rule, funcName(fn), "task recycled by its replay only", cx.P.where(in), "putTask is called by runTask (or a helper only it uses)")
+		})
+		// a direct Pool.Put of a task outside putTask
+		if origin(fn) != origin(put) {
+			allInstrs(fn, func(in ssa.Instruction) {
+				c := calleeOf(in)
+				if c == nil || c.Name() != "Put" || c.Pkg == nil || c.Pkg.Pkg.Path() != "sync" {
+					return
+				}
+				for _, a := range callCommon(in).Args {
+					t := a.Type().String()
+					if mi, ok := a.(*ssa.MakeInterface); ok {
+						t = mi.X.Type().String()
+					}
+					if strings.Contains(t, ".task[") || strings.HasSuffix(t, ".task") {
+						cx.R.Violate(rule, funcName(fn), "pool Put outside putTask", cx.P.where(in), "a *task is returned to the pool outside putTask")
+					}
+				}
+			})
+		}
+	}
+	if n == 0 {
+		cx.R.Undecided(rule, "cache", "putTask call", "-", "putTask is never called")
+	}
+}
